@@ -40,6 +40,28 @@
 (*             Verb = {0, 1, 2, 11} (the C sources test verbose != 0,      *)
 (*             > 0, > 1 and > 10) times every small shape, content and     *)
 (*             parameter class (the kernels' stdout is swallowed)          *)
+(*   values    FloatIn(k): the float DATA arrays of a kernel (pixel values,    *)
+(*             g-vectors, peak positions, value lists; not the 3 x 3        *)
+(*             matrices / geometry parameters).  No precondition of the     *)
+(*             interface excludes non-finite data (masked detector pixels,  *)
+(*             divisions by a zero flat field, log of 0): value class fv in *)
+(*             FV = {nan, pinf, ninf} (thorough + nzero = -0.0, denorm),    *)
+(*             placed on the elements FvAt = odd (every second element of   *)
+(*             the flattened array: never element 0, isolated on the dot /  *)
+(*             corner contents, with finite neighbours on the dense ones) / *)
+(*             all (thorough + last), crossed with every shape of FvShapes, *)
+(*             every content, every list size up to a chunk + 1 and every   *)
+(*             option value; "fin" = the generated finite data.             *)
+(*             WorkArrays(k): arguments that are scratch space of a kernel  *)
+(*             (MV / iMV of sparse_localmaxlabel, wrk of localmaxlabel, Z   *)
+(*             of the splat labelling, tmp / oj of compress_duplicates):    *)
+(*             their content on entry is arbitrary - the harness hands them *)
+(*             over DIRTY on every call, integer ones filled with values    *)
+(*             that look like indices just outside the array (n, -1, n + 1, *)
+(*             -2, 2^30, a large negative number), as an earlier call on a  *)
+(*             frame with more pixels leaves them (SparseScan.lmlabel       *)
+(*             passes imx[:npx]); the scan callers repeat this history      *)
+(*             (a frame after a frame with more pixels)                     *)
 (*   runtime   OmpEnvs: OpenMP environments of the process in which the    *)
 (*             team a parallel region gets differs from                    *)
 (*             omp_get_max_threads() (thread limit below OMP_NUM_THREADS,  *)
@@ -63,11 +85,11 @@
 (*                                                                         *)
 (* variables  pc   stage of the construction of one call descriptor        *)
 (*            d    the descriptor  [k, ns, nf, c1, c2, n, m, par, opt, vb, *)
-(*                 nt, env]                                                *)
+(*                 nt, env, fv, at]                                        *)
 (* actions    PickKernel PickShape PickBigShape PickStripShape PickSize    *)
 (*            PickEnvSize PickContent PickContent2 PickSize2 PickParam     *)
-(*            PickOption CheckWF PickVerbose PickThreads PickEnv           *)
-(*            PickHugeShape Finish                                         *)
+(*            PickOption CheckWF PickVerbose PickValueClass PickThreads    *)
+(*            PickEnv PickHugeShape Finish                                 *)
 (*            (one action per choice; the reachable graph is a tree whose  *)
 (*            leaves are the descriptors)                                  *)
 (* invariants TypeOK                                                       *)
@@ -101,6 +123,11 @@
 (*                 verbose argument; a call in an OpenMP environment lies  *)
 (*                 in EnvScope (large size) and the environment's team may *)
 (*                 differ from omp_get_max_threads()                       *)
+(*            ValueInv  a call with non-finite data lies in FvScope, names *)
+(*                 a kernel with float data, carries no verbose / thread   *)
+(*                 count / environment, and keeps the preconditions that   *)
+(*                 are stated on values (cluster1d: ar sorted by order -   *)
+(*                 only a constant infinite list)                          *)
 (*            WrapperInv  the allocation rule of the overlap callers       *)
 (*                 (tmp = max(capacity, pixels, n1, n2) + 1 entries)       *)
 (*                 satisfies compress_duplicates' precondition CdPre for   *)
@@ -358,6 +385,52 @@ Thr == {"neg", "zero", "mid", "max", "huge"}
 PeakNs == {0, 1, 2, 3, Chunk - 1, Chunk, Chunk + 1, 2 * Chunk + 1} \cup (IF Thorough THEN {4 * Chunk, 100003} ELSE {})
 SmallNs == {0, 1, 2, 3}
 
+\* ---- float data inputs and scratch arguments (argument names of the pyf, lower case as f2py shows them) ------------
+\*  data = what a measurement delivers (pixel values, dark / flat images, g-vectors, peak positions, lists of values);
+\*  the 3 x 3 matrices (ubi, ub, u, u1, u2, bt, r), translations and detector parameters (t, p, dist), the accumulated
+\*  moments (results, results1, results2) and the running best-score column drlv2 are parameters / state, not data
+FloatIn(k) ==
+  CASE k \in {"connectedpixels", "blobproperties", "localmaxlabel"}         -> {"data"}
+    [] k \in {"make_clean_mask", "tosparse_f32", "frelon_lines", "array_mean_var_cut", "array_mean_var_msk",
+              "array_stats", "array_histogram", "bgcalc"}                    -> {"img"}
+    [] k = "frelon_lines_sub"                                               -> {"img", "drk"}
+    [] k = "uint16_to_float_darksub"                                        -> {"drk"}
+    [] k = "uint16_to_float_darkflm"                                        -> {"drk", "flm"}
+    [] k \in {"sparse_connectedpixels", "sparse_connectedpixels_splat", "sparse_blob2Dproperties", "sparse_smooth",
+              "sparse_localmaxlabel"}                                       -> {"v"}
+    [] k = "splat"                                                          -> {"gve"}
+    [] k = "closest_vec"                                                    -> {"x"}
+    [] k = "closest"                                                        -> {"x", "v"}
+    [] k \in {"score", "score_and_refine", "score_and_assign", "refine_assigned", "score_gvec_z"} -> {"gv"}
+    [] k \in {"put_incr32", "put_incr64"}                                   -> {"vals"}
+    [] k = "cluster1d"                                                      -> {"ar"}
+    [] k \in {"compute_geometry", "compute_gv"}                             -> {"xlylzl", "omega"}
+    [] k = "compute_xlylzl"                                                 -> {"s", "f"}
+    [] k \in {"reorder_f32_a32", "reorderlut_f32_a32"}                      -> {"data"}
+    \* callers: the intensities of the frames they are handed
+    [] k \in {"py:sparse_connected_pixels", "py:sparse_localmax", "py:sparse_smooth", "py:sparse_moments",
+              "py:scan_cplabel", "py:scan_lmlabel"}                         -> {"intensity"}
+    [] OTHER                                                                -> {}
+WorkArrays(k) ==
+  CASE k = "sparse_localmaxlabel"         -> {"mv", "imv"}
+    [] k = "localmaxlabel"                -> {"wrk"}
+    [] k = "sparse_connectedpixels_splat" -> {"z"}
+    [] k = "compress_duplicates"          -> {"oj", "tmp"}
+    [] OTHER                              -> {}
+ASSUME \A k \in Kernels : WorkArrays(k) \cap (DOMAIN Outputs(k)) = {}     \* scratch is not a promised output
+FvK == {k \in AllK : FloatIn(k) # {}}
+FV == {"nan", "pinf", "ninf"} \cup (IF Thorough THEN {"nzero", "denorm"} ELSE {})
+FvAt == {"odd", "all"} \cup (IF Thorough THEN {"last"} ELSE {})
+\* the elements of a flattened array of N elements that carry the value
+FvOn(at, N, t) == CASE at = "odd" -> t % 2 = 1 [] at = "all" -> TRUE [] at = "last" -> t = N - 1
+FvShapes == {<<1, 3>>, <<2, 2>>, <<3, 3>>, <<2, 5>>, <<4, 4>>} \cup (IF Thorough THEN {<<1, 1>>, <<3, 1>>, <<2, 3>>, <<3, 2>>, <<5, 2>>, <<3, 5>>, <<5, 5>>} ELSE {})
+\* preconditions stated on values survive: cluster1d wants ar sorted by order (a constant list of +inf / -inf is)
+\* localmaxlabel: an image with a NaN pixel next to finite ones makes the walk to the maximum cycle (neighbormax's
+\* pick() never replaces a NaN column maximum: a pixel points at its NaN neighbour, which points back) - the kernel does
+\* not return (shown on the real code, reported as a defect of its own); the call cannot be judged, +inf / -inf can
+FvOK(k, fv, at) == /\ k = "cluster1d" => (fv # "nan" /\ at = "all")
+                   /\ k = "localmaxlabel" => fv # "nan"
+
 \* ---- per kernel: which choices exist ----------------------------------------------------------
 \* minimum image dimensions, read off the C source (not off the pyf, which declares none):
 \*  connectedpixels  nf >= 2   (row end reads labels[irp - 1], connectedpixels.c:150-156; one row is fine)
@@ -534,11 +607,18 @@ EnvScope(x) == /\ x.vb = 0 /\ Fam(x.k) \in {"img", "sparse", "peak", "vec"}
                                                     /\ x.c1 \in BigContents /\ x.par \in BigPars(x.k)
                /\ Fam(x.k) \in {"peak", "vec"} => x.n >= Chunk
 
+\* ---- non-finite data: where the value-class dimension is crossed with the rest of the lattice ---------------------
+\* one parameter class where the kernel has a threshold-like one (as on the big shapes), every class otherwise
+FvPars(k) == IF Fam(k) \in {"img", "sparse", "wrap"} /\ BigPars(k) # {} THEN BigPars(k) ELSE Pars(k)
+FvScope(x) == /\ x.k \in FvK /\ ~x.big /\ ~EnvOnly(x)
+              /\ Fam(x.k) \in {"img", "sparse", "wrap"} => <<x.ns, x.nf>> \in FvShapes /\ x.par \in FvPars(x.k)
+              /\ Fam(x.k) \in {"peak", "vec"} => x.n >= 1 /\ x.n <= Chunk + 1
+
 \* ---- state ------------------------------------------------------------------------------------
 VARIABLES pc, d
 vars == <<pc, d>>
 D0 == [k |-> "-", ns |-> 0, nf |-> 0, c1 |-> "-", c2 |-> "-", n |-> 0, m |-> 0, par |-> "-", opt |-> 0, big |-> FALSE,
-       nt |-> 0, vb |-> 0, env |-> 0]
+       nt |-> 0, vb |-> 0, env |-> 0, fv |-> "fin", at |-> "-"]
 Stages == {"kernel", "shape", "c1", "c2", "n", "m", "par", "opt", "wf", "vb", "nt", "finish", "done"}
 \* every parallel kernel meets every relation between thread count and trip count somewhere in its lattice
 TripsOf(k) == IF Fam(k) = "img"
@@ -589,6 +669,9 @@ PickOption(o) == /\ pc = "opt" /\ o \in Opts(d.k) /\ d' = [d EXCEPT !.opt = o] /
 PickVerbose(v) == /\ pc = "vb" /\ v \in Verbs(d.k) /\ (v > 0 => ~d.big /\ ~EnvOnly(d))
                   /\ d' = [d EXCEPT !.vb = v]
                   /\ pc' = IF Fam(d.k) \in {"fix", "wrap"} THEN "finish" ELSE "nt"
+\* non-finite data in the float inputs (instead of a verbose / thread count / environment choice)
+PickValueClass(fv, at) == /\ pc = "vb" /\ FvScope(d) /\ FvOK(d.k, fv, at)
+                          /\ d' = [d EXCEPT !.fv = fv, !.at = at] /\ pc' = "finish"
 \* nt = 0: the call runs with whatever the process has (the harness sweeps 1 / 4 / 16 over a sample of those)
 PickThreads(nt) == /\ pc = "nt" /\ (nt = 0 \/ (nt \in NT /\ ThreadScope(d))) /\ ~EnvOnly(d)
                    /\ d' = [d EXCEPT !.nt = nt] /\ pc' = "finish"
@@ -761,6 +844,7 @@ Next == \/ \E k \in AllK : PickKernel(k)
         \/ \E p \in AllPars : PickParam(p)
         \/ \E o \in AllOpts : PickOption(o)
         \/ \E v \in Verb : PickVerbose(v)
+        \/ \E fv \in FV, at \in FvAt : PickValueClass(fv, at)
         \/ \E nt \in NT \cup {0} : PickThreads(nt)
         \/ \E e \in DOMAIN OmpEnvs : PickEnv(e)
         \/ CheckWF \/ Finish
@@ -770,9 +854,14 @@ Spec == Init /\ [][Next]_vars
 TypeOK == /\ pc \in Stages \cup {"illformed"}
           /\ d.k \in AllK \cup {"-"} /\ d.ns \in Nat /\ d.nf \in Nat /\ d.n \in Nat /\ d.m \in Nat
           /\ d.big \in BOOLEAN /\ d.nt \in NT \cup {0, HugeNT} /\ d.vb \in Verb /\ d.env \in {0} \cup DOMAIN OmpEnvs
+          /\ d.fv \in FV \cup {"fin"} /\ d.at \in FvAt \cup {"-"}
 \* (stage "vb" is entered only through CheckWF; evaluated again on the finished descriptors without verbose /
 \*  thread count / environment, which share their arrays with the others)
-WellFormedInv == (pc = "done" /\ d.vb = 0 /\ d.nt = 0 /\ d.env = 0) => WellFormed(d)
+WellFormedInv == (pc = "done" /\ d.vb = 0 /\ d.nt = 0 /\ d.env = 0 /\ d.fv = "fin") => WellFormed(d)
+ValueInv == (pc = "done" /\ d.fv # "fin") => /\ FvScope(d) /\ FvOK(d.k, d.fv, d.at) /\ d.at \in FvAt
+                                              /\ d.vb = 0 /\ d.nt = 0 /\ d.env = 0
+\* every kernel with float data meets every value class somewhere in its lattice
+ASSUME \A k \in FvK \cap Kernels : \A fv \in FV \ {"nan"} : \E at \in FvAt : FvOK(k, fv, at)
 PartitionInv == (pc = "done" /\ <<d.ns, d.nf>> \notin HugeShapes) => PartFits(d)
 ThreadInv == (pc = "done" /\ d.nt > 0) => ThreadScope(d) /\ Trip(d) >= 1
 \* options and runtime environments sit where the interface / the scope says
@@ -856,7 +945,7 @@ Emit == (pc = "done" /\ EmitOn) =>
                                                            gtrows |-> (Fam(d.k) = "img" /\ d.nt > d.ns)]
                                          ELSE [E |-> 0, tag |-> "-", gtrows |-> FALSE],
                                  \* the materialised arrays do not depend on the thread count: once, with nt = 0
-                                 mat |-> IF d.nt > 0 \/ d.vb > 0 \/ d.env > 0 THEN [none |-> 0]
+                                 mat |-> IF d.nt > 0 \/ d.vb > 0 \/ d.env > 0 \/ d.fv # "fin" THEN [none |-> 0]
                                          ELSE IF Fam(d.k) = "wrap" THEN (IF SmallImg(d) THEN MatWrap(d) ELSE [none |-> 0])
                                          ELSE IF SmallImg(d) THEN MatImg(d) ELSE IF SmallVec(d) THEN MatVec(d) ELSE [none |-> 0]]))
 \* the interface table, once (initial state)
@@ -867,5 +956,7 @@ EmitInterface == (pc = "kernel" /\ EmitOn) =>
                                  scalars |-> [k \in Kernels |-> ScalarArgs(k)], verb |-> Verb,
                                  opts |-> [k \in AllK |-> Opts(k)], verbs |-> [k \in AllK |-> Verbs(k)],
                                  envs |-> OmpEnvs, callers |-> [w \in Callers |-> Calls(w)],
-                                 extents |-> [k \in Kernels |-> Extents(k)]]))
+                                 extents |-> [k \in Kernels |-> Extents(k)],
+                                 floatin |-> [k \in AllK |-> FloatIn(k)], work |-> [k \in Kernels |-> WorkArrays(k)],
+                                 fvs |-> FV, fvat |-> FvAt]))
 =============================================================================
